@@ -33,6 +33,7 @@ package font
 
 //@ func DecodeUTF16BE results (r)
 //@   property C07, C02
+//@   flags pure, robust
 //@   ghost u []int
 //@   ghost off []int
 //@   requires mod(len(data), 2) == 0 && len(off) == len(u) + 1 && off[0] == 0 && off[len(u)] == len(data)
@@ -42,7 +43,8 @@ package font
 //@   requires monotone: forall a int, b int :: {off[a], off[b]} 0 <= a && a < b && b <= len(u) ==> off[a] < off[b]
 //@   ensures decoded: len(data) > 0 ==> len(runes) == len(u) && forall k int :: {runes[k]} 0 <= k && k < len(u) ==> runes[k] == u[k]
 //@   loop 0:
-//@     invariant 0 <= i && i <= len(data) && mod(i, 2) == 0 && len(data) == len(old(data)) && same(data, old(data))
+//@     invariant 0 <= i && i <= len(data) && mod(i, 2) == 0 && mod(len(data), 2) == 0
+//@     invariant len(u) >= 0 && len(data) == len(old(data)) && same(data, old(data))
 //@     invariant len(runes) <= len(u) && i == off[len(runes)]
 //@     invariant forall k int :: {runes[k]} 0 <= k && k < len(runes) ==> runes[k] == u[k]
 //@     split u[len(runes)] < 65536
@@ -50,6 +52,7 @@ package font
 
 //@ func DecodeUTF16LE results (r)
 //@   property C07, C02
+//@   flags pure, robust
 //@   ghost u []int
 //@   ghost off []int
 //@   requires mod(len(data), 2) == 0 && len(off) == len(u) + 1 && off[0] == 0 && off[len(u)] == len(data)
@@ -59,7 +62,8 @@ package font
 //@   requires monotone: forall a int, b int :: {off[a], off[b]} 0 <= a && a < b && b <= len(u) ==> off[a] < off[b]
 //@   ensures decoded: len(data) > 0 ==> len(runes) == len(u) && forall k int :: {runes[k]} 0 <= k && k < len(u) ==> runes[k] == u[k]
 //@   loop 0:
-//@     invariant 0 <= i && i <= len(data) && mod(i, 2) == 0 && len(data) == len(old(data)) && same(data, old(data))
+//@     invariant 0 <= i && i <= len(data) && mod(i, 2) == 0 && mod(len(data), 2) == 0
+//@     invariant len(u) >= 0 && len(data) == len(old(data)) && same(data, old(data))
 //@     invariant len(runes) <= len(u) && i == off[len(runes)]
 //@     invariant forall k int :: {runes[k]} 0 <= k && k < len(runes) ==> runes[k] == u[k]
 //@     split u[len(runes)] < 65536
@@ -93,7 +97,7 @@ package font
 
 //@ func (*CMap) LookupString results (r)
 //@   property C07, C02
-//@   flags readonly
+//@   flags readonly, pure
 //@   loop 0:
 //@     invariant 0 <= i && i <= len(data)
 //@     decreases len(data) - i
@@ -110,3 +114,19 @@ package font
 //@     step bmp_unit: prev(len(buf)) >= 2 && !isHighSur(be16(prev(buf), 0)) ==> len(buf) == prev(len(buf)) - 2 && samebase(buf, prev(buf)) && off(buf) == off(prev(buf)) + 2 && same(result, strcat(prev(result), utf8enc(be16(prev(buf), 0))))
 //@     step surrogate_pair: prev(len(buf)) >= 4 && isHighSur(be16(prev(buf), 0)) && isLowSur(be16(prev(buf), 2)) ==> len(buf) == prev(len(buf)) - 4 && samebase(buf, prev(buf)) && off(buf) == off(prev(buf)) + 4 && same(result, strcat(prev(result), utf8enc(65536 + (be16(prev(buf), 0) - 55296) * 1024 + (be16(prev(buf), 2) - 56320))))
 //@     decreases len(buf)
+
+// NFC normalisation is library code (golang.org/x/text/unicode/norm): assumed deterministic
+//@ func NormalizeUnicode results (r)
+//@   property C07
+//@   flags pure, trusted
+
+// Decode priority: a ToUnicode CMap wins over everything; then a UTF-16 byte-order mark; then the named encoding;
+// then the raw bytes.  NFC normalisation is applied last on every path.
+//@ func (*Font) DecodeString results (r)
+//@   property C07
+//@   let bomBE = len(data) >= 2 && data[0] == 254 && data[1] == 255
+//@   let bomLE = len(data) >= 2 && data[0] == 255 && data[1] == 254
+//@   ensures tounicode_first: !isnil(f.ToUnicodeCMap) ==> sameseq(r, NormalizeUnicode(f.ToUnicodeCMap.LookupString(data)))
+//@   ensures utf16_be_bom: isnil(f.ToUnicodeCMap) && bomBE ==> sameseq(r, NormalizeUnicode(DecodeUTF16BE(data[2:])))
+//@   ensures utf16_le_bom: isnil(f.ToUnicodeCMap) && bomLE ==> sameseq(r, NormalizeUnicode(DecodeUTF16LE(data[2:])))
+//@   ensures raw_bytes_last: isnil(f.ToUnicodeCMap) && !bomBE && !bomLE && len(f.Encoding) == 0 ==> sameseq(r, NormalizeUnicode(data))
